@@ -9,7 +9,8 @@ import "encoding/xml"
 type SASLAuth struct {
 	XMLName   xml.Name `xml:"urn:ietf:params:xml:ns:xmpp-sasl auth"`
 	Mechanism string   `xml:"mechanism,attr"`
-	Value     string   `xml:",innerxml"`
+	// the base64 payload: character data, so that no value can be taken for markup
+	Value string `xml:",chardata"`
 }
 
 // ============================================================================
